@@ -243,8 +243,14 @@ def store_case(rep, drv, rng, tmpdir):
 	from stockpyl.supply_chain_network import single_stage_system
 	path = os.path.join(tmpdir, 'store_%d.json' % rng.randint(0, 10 ** 9))
 	names = ['a', 'b', 'c', 'd']
+	# the same file under different spellings of its path (absolute, relative to the working directory, with redundant components): the store
+	# is the FILE, however it is named
+	base = os.path.basename(path)
+	spellings = [path, os.path.relpath(path), os.path.join(tmpdir, '.', base), os.path.join(tmpdir, '..', os.path.basename(tmpdir), base),
+				 tmpdir + os.sep + os.sep + base]
+	spell = lambda: rng.choice(spellings) if rng.random() < .5 else path
 	ops = []; py_res = []
-	n_ops = rng.randint(2, 8)
+	n_ops = rng.randint(2, 10)
 	nets = {}
 	for k in range(n_ops):
 		if rng.random() < .6:
@@ -259,7 +265,7 @@ def store_case(rep, drv, rng, tmpdir):
 				else:
 					data = {'token': tok, 'list': [1, 2, tok]}
 					before = copy.deepcopy(data)
-				save_instance(name, data, 'd', filepath=path, replace=rep_flag)
+				save_instance(name, data, 'd', filepath=spell(), replace=rep_flag)
 				if use_net and not before.deep_equal_to(data) or (not use_net and before != data):
 					rep.diff('store', 'save_instance altered the object being saved', ops, oracle=True)
 			ops.append({'op': 'save', 'name': name, 'data': tok, 'replace': rep_flag}); py_res.append(None)
@@ -268,7 +274,7 @@ def store_case(rep, drv, rng, tmpdir):
 			try:
 				with warnings.catch_warnings():
 					warnings.simplefilter('ignore')
-					d = load_instance(name, filepath=path)
+					d = load_instance(name, filepath=spell())
 				tok = d['token'] if isinstance(d, dict) else int(d.nodes[0].local_holding_cost)
 			except (KeyError, FileNotFoundError, IndexError, AttributeError, TypeError):
 				tok = None
@@ -417,8 +423,9 @@ def run(rep, drv):
 	try:
 		for k in range(600 if th else 70):
 			roundtrip_case(rep, rng, th, tmpdir, drv)
-		for k in range(400 if th else 60):
-			store_case(rep, drv, rng, tmpdir)
+		rngs = random.Random(rep.seed + 1717)
+		for k in range(800 if th else 200):
+			store_case(rep, drv, rngs, tmpdir)
 		for k in range(500 if th else 70):
 			csv_case(rep, rng, th, tmpdir)
 	finally:
